@@ -950,6 +950,94 @@ impl<'a> Lifter<'a> {
         f.0
     }
 
+    /// the summand of a lifted sum as a named spec function of the variables it mentions (so that lemmas can speak
+    /// about one term): returns the closure text `|i: int| name(captured.., i)`
+    fn hoist_summand(&mut self, src_idents: &[String], iv: &str, body: &Val) -> String {
+        let mut caps: Vec<(String, String)> = Vec::new();
+        let mut seen: Vec<String> = vec![iv.to_string()];
+        for fr in self.env.iter().rev() {
+            let mut names: Vec<&String> = fr.keys().collect();
+            names.sort();
+            for n in names {
+                if seen.contains(n) {
+                    continue;
+                }
+                seen.push(n.clone());
+                let mentioned = src_idents.contains(n) || (n == "self_" && src_idents.iter().any(|x| x == "self"));
+                let ty = fr[n].clone();
+                if mentioned && !ty.contains('?') && ty != "closure" {
+                    caps.push((n.clone(), ty));
+                }
+            }
+        }
+        caps.sort();
+        let k = self.havocs.iter().filter(|h| h.contains("__summand")).count();
+        let name = format!("{}__summand{}", self.fn_name, k);
+        let ps: Vec<String> = caps.iter().map(|(n, t)| format!("{n}: {t}")).chain(std::iter::once(format!("{iv}: int"))).collect();
+        self.havocs.push(format!("pub open spec fn {name}({}) -> {} {{ {} }}", ps.join(", "), body.ty, body.text));
+        let args: Vec<String> = caps.iter().map(|(n, _)| n.clone()).chain(std::iter::once(iv.to_string())).collect();
+        format!("|{iv}: int| crate::{name}({})", args.join(", "))
+    }
+    fn idents_of(e: &impl ToTokens) -> Vec<String> {
+        let mut out = Vec::new();
+        fn walk(ts: proc_macro2::TokenStream, out: &mut Vec<String>) {
+            for t in ts {
+                match t {
+                    proc_macro2::TokenTree::Ident(i) => out.push(i.to_string()),
+                    proc_macro2::TokenTree::Group(g) => walk(g.stream(), out),
+                    _ => {}
+                }
+            }
+        }
+        walk(e.to_token_stream(), &mut out);
+        out
+    }
+    /// L24: recognise `for i in a..b { let ..; ..; acc += e; }` with `acc` a real local bound outside the loop that the
+    /// body does not otherwise mention; returns (acc, lets, e, a, b)
+    fn accumulation_loop(&self, f: &syn::ExprForLoop) -> Option<(String, Vec<syn::Stmt>, syn::Expr, syn::Expr, syn::Expr)> {
+        let syn::Pat::Ident(_) = &*f.pat else { return None };
+        let mut range = &*f.expr;
+        while let syn::Expr::Paren(p) = range {
+            range = &p.expr;
+        }
+        let syn::Expr::Range(r) = range else { return None };
+        if !matches!(r.limits, syn::RangeLimits::HalfOpen(_)) {
+            return None;
+        }
+        let (lo, hi) = (r.start.as_ref()?, r.end.as_ref()?);
+        let (last, lets) = f.body.stmts.split_last()?;
+        if !lets.iter().all(|s| matches!(s, syn::Stmt::Local(_))) {
+            return None;
+        }
+        let syn::Stmt::Expr(syn::Expr::Binary(b), _) = last else { return None };
+        if !matches!(b.op, syn::BinOp::AddAssign(_)) {
+            return None;
+        }
+        let syn::Expr::Path(p) = &*b.left else { return None };
+        let acc = p.path.get_ident()?.to_string();
+        if self.lookup(&acc).as_deref() != Some("real") {
+            return None;
+        }
+        if Self::assigned_vars(&f.body) != vec![acc.clone()] {
+            return None;
+        }
+        // the accumulator must not be read by the summand
+        struct Ids(Vec<String>);
+        impl<'ast> syn::visit::Visit<'ast> for Ids {
+            fn visit_ident(&mut self, i: &'ast proc_macro2::Ident) {
+                self.0.push(i.to_string());
+            }
+        }
+        let mut ids = Ids(vec![]);
+        for l in lets {
+            syn::visit::Visit::visit_stmt(&mut ids, l);
+        }
+        syn::visit::Visit::visit_expr(&mut ids, &b.right);
+        if ids.0.contains(&acc) {
+            return None;
+        }
+        Some((acc, lets.to_vec(), (*b.right).clone(), (**lo).clone(), (**hi).clone()))
+    }
     fn assigned_vars(b: &syn::Block) -> Vec<String> {
         struct A(Vec<String>);
         impl<'ast> syn::visit::Visit<'ast> for A {
@@ -1306,6 +1394,40 @@ impl<'a> Lifter<'a> {
                 self.bind(&name, &x.ty);
                 let r = self.rest(rest, cont)?;
                 Ok(v(format!("{{ let {name} = {}; {} }}", x.text, r.text), &r.ty))
+            }
+            Expr::ForLoop(f) if self.accumulation_loop(f).is_some() => {
+                // L24: `for i in a..b { <lets>; acc += e; }` is `acc + sum_{i=a}^{b-1} e(i)`
+                let (acc, lets, rhs, lo, hi) = self.accumulation_loop(f).unwrap();
+                let syn::Pat::Ident(pi) = &*f.pat else { unreachable!() };
+                let iv = pi.ident.to_string();
+                let lo_v = self.expr(&lo)?;
+                let hi_v = self.expr(&hi)?;
+                if lo_v.ty != "int" || hi_v.ty != "int" {
+                    return unsupported("accumulation loop bounds", e);
+                }
+                let mut stmts: Vec<syn::Stmt> = lets;
+                stmts.push(syn::Stmt::Expr(rhs, None));
+                self.closure_base.push(self.env.len());
+                self.env.push(HashMap::new());
+                self.bind(&iv, "int");
+                let body = self.stmts_with_cont(&stmts, None);
+                self.env.pop();
+                self.closure_base.pop();
+                let body = body?;
+                if body.ty != "real" {
+                    return Err(format!("construct outside rule list (lift): accumulation loop with summand of type {}", body.ty));
+                }
+                self.note("L24", e.span(), "accumulation loop lifted to a sum over the index range");
+                let sum = if lo_v.text == "0int" {
+                    let ids = Self::idents_of(&f.body);
+                    let cl = self.hoist_summand(&ids, &iv, &body);
+                    format!("rsum({}, {cl})", hi_v.text)
+                } else {
+                    format!("rsum({1} - {0}, |k__: int| {{ let {iv} = {0} + k__; {2} }})", lo_v.text, hi_v.text, body.text)
+                };
+                self.bind(&acc, "real");
+                let r = self.rest(rest, cont)?;
+                Ok(v(format!("{{ let {acc} = {acc} + {sum}; {} }}", r.text), &r.ty))
             }
             Expr::ForLoop(_) | Expr::While(_) | Expr::Loop(_) => {
                 // L6: havoc every variable assigned in the loop
@@ -1934,6 +2056,32 @@ impl<'a> Lifter<'a> {
 
     fn method(&mut self, m: &syn::ExprMethodCall, whole: &syn::Expr) -> R<Val> {
         let name = m.method.to_string();
+        // (0..n).map(|i| e).sum()
+        if name == "sum" && m.args.is_empty() {
+            if let syn::Expr::MethodCall(mm) = &*m.receiver {
+                if mm.method == "map" && mm.args.len() == 1 {
+                    let mut recv = &*mm.receiver;
+                    while let syn::Expr::Paren(p) = recv {
+                        recv = &p.expr;
+                    }
+                    if let syn::Expr::Range(r) = recv {
+                        if let (Some(lo), Some(hi), syn::RangeLimits::HalfOpen(_)) = (r.start.as_ref(), r.end.as_ref(), &r.limits) {
+                            let lo = self.expr(lo)?;
+                            let hi = self.expr(hi)?;
+                            if lo.text == "0int" && hi.ty == "int" {
+                                let (pn, body) = self.closure1(&mm.args[0], "int")?;
+                                if body.ty == "real" {
+                                    self.note("L8", whole.span(), "range-map-sum lifted to a recursive sum");
+                                    let ids = Self::idents_of(&mm.args[0]);
+                                    let cl = self.hoist_summand(&ids, &pn, &body);
+                                    return Ok(v(format!("rsum({}, {cl})", hi.text), "real"));
+                                }
+                            }
+                        }
+                    }
+                }
+            }
+        }
         // (a..b).map(|i| e).collect()
         if name == "collect" {
             if let syn::Expr::MethodCall(mm) = &*m.receiver {
@@ -2120,6 +2268,7 @@ impl<'a> Lifter<'a> {
             ("clamp", "real") if args.len() == 2 => return Ok(v(format!("rmin(rmax({}, {}), {})", recv.text, args[0].text, args[1].text), "real")),
             ("max", "real") if args.len() == 1 => return Ok(v(format!("rmax({}, {})", recv.text, args[0].text), "real")),
             ("min", "real") if args.len() == 1 => return Ok(v(format!("rmin({}, {})", recv.text, args[0].text), "real")),
+            ("powf", "real") if args.len() == 1 && args[0].ty == "real" => return Ok(v(format!("rpowf({}, {})", recv.text, args[0].text), "real")),
             ("is_sign_negative", "real") => return Ok(v(format!("({} < 0real)", recv.text), "bool")),
             ("is_sign_positive", "real") => return Ok(v(format!("({} >= 0real)", recv.text), "bool")),
             ("powi", "real") => {
@@ -2417,6 +2566,7 @@ pub fn lift_fn(ctx: &mut Ctx, blk: &Block) -> Result<(String, Value), String> {
             syn::FnArg::Typed(t) => {
                 let pn = match &*t.pat {
                     syn::Pat::Ident(i) => i.ident.to_string(),
+                    syn::Pat::Wild(_) => format!("unused__{}", params.len()),
                     _ => return Err("construct outside rule list (lift): pattern parameter".into()),
                 };
                 if let syn::Type::Reference(r) = &*t.ty {
